@@ -9,6 +9,7 @@ import (
 	"pgregory.net/rapid"
 
 	"verifharness/conv"
+	"verifharness/gen"
 	"verifharness/obs"
 	"verifharness/ref"
 )
@@ -245,5 +246,63 @@ func TestC01RoundTrip(t *testing.T) {
 		}
 		muxClasses(rec, tr)
 		rec.Case(historySig(tr), len(pids) >= 2 && multi && af, func() interface{} { return tr.render() })
+	})
+}
+
+// TestC01PMTFill: PMTs that fill their packet exactly (or leave one or two bytes), followed by a configuration change
+// and another emission.
+func TestC01PMTFill(t *testing.T) {
+	rec := obs.NewRecorder("C01", "pmt_fill", "rapid: 1..5 streams whose last one carries a user-defined descriptor sized so that the PMT section ends exactly on the last byte of its packet, or 1..3 bytes before it; tables are emitted, PES are written, then a stream is removed (shorter PMT) or the PCR PID set again and tables are emitted again; same round-trip oracle as the roundtrip unit plus the table checks of C04/C17 (every emission delivered, in order); non-trivial = every case; distinct by history")
+	defer rec.Flush()
+	rapid.Check(t, func(t *rapid.T) {
+		n := rapid.IntRange(1, 5).Draw(t, "streams")
+		var ops []muxOp
+		used := 17 // pointer_field + section header (8) + PCR PID/program info (4) + CRC (4)
+		for i := 0; i < n; i++ {
+			op := muxOp{kind: opAdd, pid: uint16(0x100 + i), stype: drawStreamType(t)}
+			if i < n-1 {
+				if gen.Bool(t, "desc") {
+					op.descs = gen.Descriptors(t, 2, 20, "d")
+				}
+				used += 5 + len(ref.EncodeDescriptors(op.descs))
+			} else {
+				gap := rapid.IntRange(0, 3).Draw(t, "gap")
+				room := 184 - used - 5 - 2 - gap
+				if room < 0 || room > 255 {
+					t.Skip("no room")
+				}
+				op.descs = []*astits.Descriptor{{Tag: uint8(rapid.IntRange(0x80, 0xfe).Draw(t, "tag")), UserDefined: gen.Bytes(t, room, "fill")}}
+				used += 5 + 2 + room
+			}
+			ops = append(ops, op)
+		}
+		pts := uint64(777)
+		data := func(sel int) muxOp {
+			return muxOp{kind: opData, sel: sel, pes: &ref.PES{StreamID: 0xc0, Length: -1, Opt: &ref.PESOpt{PTS: &pts}, Payload: gen.Bytes(t, rapid.IntRange(1, 300).Draw(t, "pl"), "plb")}}
+		}
+		ops = append(ops, muxOp{kind: opSetPCR, sel: 0}, muxOp{kind: opTables}, data(0))
+		if gen.Bool(t, "twice") {
+			ops = append(ops, muxOp{kind: opTables})
+		}
+		switch gen.Uniform(t, 3, "change") {
+		case 0:
+			if n > 1 {
+				ops = append(ops, muxOp{kind: opRemove, sel: rapid.IntRange(1, n-1).Draw(t, "rm")})
+			} else {
+				ops = append(ops, muxOp{kind: opAdd, pid: 0x300, stype: astits.StreamTypeAACAudio})
+			}
+		case 1:
+			ops = append(ops, muxOp{kind: opSetPCR, sel: 0})
+		default:
+			ops = append(ops, muxOp{kind: opAdd, auto: true, stype: astits.StreamTypeAACAudio})
+		}
+		ops = append(ops, muxOp{kind: opTables}, data(0), muxOp{kind: opTables})
+		tr := runMuxHistory(40, false, ops, &writerSpy{}, true)
+		for _, f := range []func(*muxTrace) string{analyzeC04, analyzeC01, func(tr *muxTrace) string { v, _ := analyzeC17(tr); return v }} {
+			if v := f(tr); v != "" {
+				t.Fatalf("%s\nhistory:\n%s", v, tr.render())
+			}
+		}
+		rec.Case(historySig(tr), true, func() interface{} { return tr.render() })
 	})
 }
